@@ -99,7 +99,7 @@ fn spellings(f: &Fields) -> Vec<String> {
 fn boundary_universe() -> (Vec<V>, usize) {
     const M: u32 = u32::MAX;
     build_universe(&[0, M], &[vec![1], vec![M], vec![1, M], vec![1, 0], vec![1, M, 1], vec![1, 2147483648, 2147483648], vec![1, 0, 0, M]], &[None, Some(("a", 0)), Some(("a", M)), Some(("b", 0)), Some(("b", M)), Some(("rc", 0)), Some(("rc", M))],
-        &[None, Some(0), Some(M)], &[None, Some(0), Some(M)], &[None, Some("4294967295"), Some("4294967296")])
+        &[None, Some(0), Some(M)], &[None, Some(0), Some(M)], &[None, Some("4294967295"), Some("4294967296"), Some("9999999999"), Some("10000000000"), Some("1z"), Some("a")])
 }
 
 fn universe(quick: bool) -> (Vec<V>, usize) {
